@@ -33,6 +33,20 @@ Theorem C12_chain_is_true_ancestry : forall l g ng rest, wf l -> find g l = Some
 Proof. exact linked_is_chain_of. Qed.
 Print Assumptions C12_chain_is_true_ancestry.
 
+(* why the implementation's images are sound, and exactly when they are not: a Load reports the
+   main-file history below its horizon and the branch files above it; if the two agree below the
+   horizon the report is the chain under the index ... *)
+Theorem C12_splice_sound : forall hist mem p, agree_below hist mem p = true -> splice hist mem p = mem.
+Proof. exact splice_sound. Qed.
+Print Assumptions C12_splice_sound.
+
+(* ... otherwise it is a splice of two chains (known finding D27; the harness must justify, with
+   this very predicate evaluated in the kernel, every crash point it sets aside as D27) *)
+Theorem C12_splice_refuted : exists hist mem p, agree_below hist mem p = false /\
+  splice hist mem p <> mem /\ splice hist mem p <> hist.
+Proof. exact splice_refuted. Qed.
+Print Assumptions C12_splice_refuted.
+
 (* the uninterrupted case (all writes done): Save then Load restores the saved chain, heights and
    invalid list (C11) - so the bound "at least the work of the last completed Save" is what an
    uninterrupted run delivers, and the reachable states satisfy the hypotheses above *)
